@@ -4,6 +4,8 @@
 (* evaluated after every event.  Reset starts a new run (possibly of another transaction).            *)
 EXTENDS ScriptChunk, Json, IOUtils, TLCExt
 Rec == ndJsonDeserialize(IOEnv.TRACE)
+NoGroups == <<>>
+None == {}
 VARIABLE l
 tvars == <<vars, l>>
 Ev == Rec[l]
